@@ -94,6 +94,7 @@ structure Inv (s : St) : Prop where
   arrNodup : (s.arrs.map (·.1)).Nodup
   rootsLive : ∀ r ∈ s.roots, r.2 ∈ objIds s ∨ r.2 ∈ arrIdsLive s
   stampsLt : ∀ p ∈ s.objs, p.2.stamp < s.clock
+  disjoint : ∀ i ∈ objIds s, i ∉ arrIdsLive s
 
 theorem inv_init : Inv St.init := by
   constructor <;> simp [St.init, objIds, arrIdsLive]
@@ -305,6 +306,11 @@ theorem construct_inv {s s' : St} {cls : Nat} {cyc : Bool} {args : List ArgTok} 
       rcases List.mem_cons.mp hp with rfl | hp'
       · exact Nat.lt_succ_self _
       · exact Nat.lt_succ_of_lt (h.stampsLt p hp')
+    · intro i hi
+      simp only [objIds, List.map_cons, List.mem_cons] at hi
+      rcases hi with rfl | hi
+      · exact hf2
+      · exact h.disjoint i hi
 
 /-! ### `free` (the primitive reclamation step) -/
 
@@ -369,6 +375,12 @@ theorem free_inv {s : St} {i : Id} (h : Inv s) (hr : referenced s i = false) : I
       rw [List.mem_filter]
       exact ⟨ha, by simpa [e] using hne⟩
   · intro p hp; exact h.stampsLt p (mem_free_objs.mp hp).1
+  · intro j hj hja
+    obtain ⟨o, ho⟩ := mem_objIds.mp hj
+    refine h.disjoint j (mem_objIds.mpr ⟨o, (mem_free_objs.mp ho).1⟩) ?_
+    simp only [arrIdsLive, List.mem_map] at hja ⊢
+    obtain ⟨a, ha, e⟩ := hja
+    exact ⟨a, (List.mem_filter.mp ha).1, e⟩
 
 theorem reclaim_inv {s s' : St} {i : Id} (h : Inv s) (hr : reclaim s i = .ok s') : Inv s' := by
   unfold reclaim at hr
@@ -424,6 +436,7 @@ theorem setRoot_inv {s : St} {slot : Nat} {i : Id} (h : Inv s)
     · exact hi
     · exact h.rootsLive r hr.1
   · exact h.stampsLt
+  · exact h.disjoint
 
 theorem dropRoot_inv {s : St} {slot : Nat} (h : Inv s) :
     Inv { s with roots := s.roots.filter (fun r => r.1 ≠ slot) } := by
@@ -440,6 +453,7 @@ theorem dropRoot_inv {s : St} {slot : Nat} (h : Inv s) :
   · intro r hr
     exact h.rootsLive r (List.mem_filter.mp hr).1
   · exact h.stampsLt
+  · exact h.disjoint
 
 /-- The object a successful `construct` returns is live afterwards. -/
 theorem construct_live {s s' : St} {cls : Nat} {cyc : Bool} {args : List ArgTok} {nid r : Id}
@@ -538,6 +552,11 @@ theorem step_inv {s s' : St} (op : Step) (h : Inv s) (hs : step s op = .ok s') :
           · exact Or.inl h1
           · right; simp only [arrIdsLive, List.map_cons, List.mem_cons]; exact Or.inr h1
       · intro p hp; exact Nat.lt_succ_of_lt (h.stampsLt p hp)
+      · intro i hi hia
+        simp only [arrIdsLive, List.map_cons, List.mem_cons] at hia
+        rcases hia with rfl | hia
+        · exact hfresh.1 hi
+        · exact h.disjoint i hi hia
   | mk slot cls cyc args nid =>
     simp only [step] at hs
     split at hs
@@ -600,5 +619,385 @@ theorem inv_run : ∀ (ops : List Step) (s s' : St), Inv s → run s ops = .ok s
 
 theorem inv_reachable (ops : List Step) (s : St) (hr : run St.init ops = .ok s) : Inv s :=
   inv_run ops _ _ inv_init hr
+
+/-! ## The property -/
+
+/-- **Structural equality is identity**: two live interned objects are the same object iff they
+    have the same class and equal cons keys. -/
+theorem identity_iff_structural {s : St} (h : Inv s) {i j : Id} {o o' : Obj}
+    (hi : (i, o) ∈ s.objs) (hj : (j, o') ∈ s.objs) :
+    i = j ↔ (o.cls = o'.cls ∧ o.key = o'.key) := by
+  constructor
+  · intro e; subst e
+    have := nodup_map_inj (·.1) s.objs h.idsNodup _ hi _ hj rfl
+    cases this; exact ⟨rfl, rfl⟩
+  · intro ⟨e1, e2⟩
+    have := nodup_map_inj keyOf s.objs h.keysNodup _ hi _ hj (by simp [keyOf, e1, e2])
+    exact congrArg Prod.fst this
+
+/-- The tables hold exactly one entry per live object: they cannot grow beyond the heap. -/
+theorem cache_len_eq_live {s : St} (h : Inv s) : s.cache.length = s.objs.length := by
+  rw [h.cacheEq, List.length_map]
+
+/-- **No stale object, part 1**: a lookup only ever returns a live object that was inserted
+    under exactly the requested class and key, built from arguments with that key. -/
+theorem lookup_sound {s : St} (h : Inv s) {k : CKey} {i : Id} (hl : lookup s.cache k = some i) :
+    ∃ o, (i, o) ∈ s.objs ∧ (o.cls, o.key) = k ∧ mkKey o.args = some o.key := by
+  rw [h.cacheEq] at hl
+  obtain ⟨p, hp, e1, e2⟩ := lookup_some _ _ _ hl
+  exact ⟨p.2, by rw [← e1]; exact hp, e2, h.keyOfArgs p hp⟩
+
+/-- An object's own key finds the object. -/
+theorem lookup_self {s : St} (h : Inv s) {i : Id} {o : Obj} (ho : (i, o) ∈ s.objs) :
+    lookup s.cache (o.cls, o.key) = some i := by
+  rw [h.cacheEq]
+  exact lookup_self_aux s.objs h.keysNodup (i, o) ho
+
+/-- **No stale object, part 2** (recycled addresses): if the request passes arrays where the
+    object found has arrays, then the arrays the object holds at those addresses are the very
+    allocations that are live there *now* (same ghost serial) — never an earlier array whose
+    address has since been handed out again. -/
+theorem no_stale_arrays {s : St} (h : Inv s) {i : Id} {o : Obj} {args : List ArgTok}
+    (ho : (i, o) ∈ s.objs) (hpos : arrIds o.args = arrIds args) :
+    ∀ a ∈ arrIds args, ∀ ser, (a, ser) ∈ s.arrs → (a, ser) ∈ o.arrs := by
+  intro a ha ser hser
+  rw [← hpos, ← h.arrsOfArgs (i, o) ho, List.mem_map] at ha
+  obtain ⟨p, hp, e⟩ := ha
+  have hps := h.arrsHeld (i, o) ho p hp
+  have := nodup_map_inj (·.1) s.arrs h.arrNodup p hps (a, ser) hser e
+  rw [← this]; exact hp
+
+/-- Without that hypothesis the key alone cannot tell an array from the integer equal to its
+    address (`id(arg)` *is* an int): the request `Tensor(<int 7>)` finds the tensor built on the
+    array that lives at address 7. -/
+theorem id_collision_witness :
+    ∃ s s1 r, run St.init [.alloc 0 7, .mk 1 0 false [.arr 7, .lp, .rp, .str "real"] 9] = .ok s ∧
+      construct s 0 false [.int 7, .lp, .rp, .str "real"] 10 = .ok (s1, r) ∧ r = 9 := by
+  refine ⟨_, _, _, rfl, rfl, rfl⟩
+
+theorem construct_hit {s : St} {cls : Nat} {cyc : Bool} {args : List ArgTok} {nid r : Id}
+    {key : List Tok} {held : List (Id × Nat)} (hk : mkKey args = some key)
+    (hrefs : ∀ j ∈ refsOf key, j ∈ objIds s)
+    (hheld : resolveArrs s.arrs (arrIds args) = some held)
+    (hl : lookup s.cache (cls, key) = some r) : construct s cls cyc args nid = .ok (s, r) := by
+  have hall : (refsOf key).all (fun j => decide (j ∈ objIds s)) = true :=
+    List.all_eq_true.mpr (fun j hj => decide_eq_true (hrefs j hj))
+  unfold construct
+  simp only [hk, hall, hheld, hl]
+  simp
+
+/-- Asking again (under any interpretation, with any spare address) returns the same object and
+    changes nothing. -/
+theorem construct_idem {s s1 : St} {cls : Nat} {cyc : Bool} {args : List ArgTok} {nid r : Id}
+    (hc : construct s cls cyc args nid = .ok (s1, r)) (cyc' : Bool) (nid' : Id) :
+    construct s1 cls cyc' args nid' = .ok (s1, r) := by
+  obtain ⟨key, held, hk, hrefs, hheld, hcase⟩ := construct_cases hc
+  rcases hcase with ⟨hhit, rfl⟩ | ⟨_, rfl, _, _, rfl⟩
+  · exact construct_hit hk hrefs hheld hhit
+  · refine construct_hit hk ?_ hheld ?_
+    · intro j hj
+      simp only [objIds, List.map_cons, List.mem_cons]
+      exact Or.inr (hrefs j hj)
+    · simp [lookup]
+
+/-- The object a successful `construct` returns carries the requested class and key. -/
+theorem construct_spec {s s' : St} {cls : Nat} {cyc : Bool} {args : List ArgTok} {nid r : Id}
+    (h : Inv s) (hc : construct s cls cyc args nid = .ok (s', r)) :
+    ∃ o, (r, o) ∈ s'.objs ∧ o.cls = cls ∧ mkKey args = some o.key := by
+  obtain ⟨key, held, hk, _, _, hcase⟩ := construct_cases hc
+  rcases hcase with ⟨hhit, rfl⟩ | ⟨_, rfl, _, _, rfl⟩
+  · obtain ⟨o, ho, e, _⟩ := lookup_sound h hhit
+    simp only [Prod.mk.injEq] at e
+    exact ⟨o, ho, e.1, by rw [e.2]; exact hk⟩
+  · exact ⟨_, List.mem_cons_self, rfl, hk⟩
+
+/-- `construct` only adds: whatever was live stays live, unchanged. -/
+theorem construct_mono {s s' : St} {cls : Nat} {cyc : Bool} {args : List ArgTok} {nid r : Id}
+    (hc : construct s cls cyc args nid = .ok (s', r)) : ∀ p ∈ s.objs, p ∈ s'.objs := by
+  obtain ⟨key, held, _, _, _, hcase⟩ := construct_cases hc
+  rcases hcase with ⟨_, rfl⟩ | ⟨_, _, _, _, rfl⟩
+  · intro p hp; exact hp
+  · intro p hp; exact List.mem_cons_of_mem _ hp
+
+/-- **Refinement**: two successive constructor calls yield the same object iff they name the
+    same class and their arguments have the same `make_hash_key` — whatever else is in the heap,
+    whichever addresses the allocator offers. -/
+theorem construct_same_iff {s s1 s2 : St} {c c' : Nat} {cy cy' : Bool} {a a' : List ArgTok}
+    {n n' r1 r2 : Id} (h : Inv s) (h1 : construct s c cy a n = .ok (s1, r1))
+    (h2 : construct s1 c' cy' a' n' = .ok (s2, r2)) :
+    r1 = r2 ↔ (c = c' ∧ mkKey a = mkKey a') := by
+  have i1 := construct_inv h h1
+  have i2 := construct_inv i1 h2
+  obtain ⟨o1, m1, c1, k1⟩ := construct_spec h h1
+  obtain ⟨o2, m2, c2, k2⟩ := construct_spec i1 h2
+  have m1' := construct_mono h2 _ m1
+  rw [identity_iff_structural i2 m1' m2, c1, c2, k1, k2]
+  simp
+
+/-! ### weakly held -/
+
+/-- Freeing an object removes its table entry with it: no later lookup can return it. -/
+theorem free_purges {s : St} {i : Id} (h : Inv s) (hr : referenced s i = false) :
+    i ∉ objIds (free s i) ∧ ∀ k, lookup (free s i).cache k ≠ some i := by
+  have hi := free_inv h hr
+  have h1 : i ∉ objIds (free s i) := by
+    intro hm
+    obtain ⟨o, ho⟩ := mem_objIds.mp hm
+    exact (mem_free_objs.mp ho).2 rfl
+  refine ⟨h1, ?_⟩
+  intro k hk
+  obtain ⟨o, ho, _, _⟩ := lookup_sound hi hk
+  exact h1 (mem_objIds.mpr ⟨o, ho⟩)
+
+theorem collect_roots (c : Bool) : ∀ (fuel : Nat) (s : St), (collect c fuel s).roots = s.roots
+  | 0, _ => rfl
+  | fuel + 1, s => by
+    simp only [collect]
+    split
+    · rw [collect_roots c fuel]; rfl
+    · rfl
+
+theorem length_filter_lt {α : Type} (p : α → Bool) :
+    ∀ (l : List α) (x : α), x ∈ l → p x = false → (l.filter p).length < l.length
+  | [], _, hx, _ => by cases hx
+  | y :: ys, x, hx, hp => by
+    rcases List.mem_cons.mp hx with rfl | hx'
+    · simp only [List.filter_cons, hp]
+      have := List.length_filter_le p ys
+      simp only [Bool.false_eq_true, if_false, List.length_cons]
+      omega
+    · have ih := length_filter_lt p ys x hx' hp
+      simp only [List.filter_cons]
+      split <;> simp only [List.length_cons] <;> omega
+
+theorem findUnref_mem {s : St} {c : Bool} {i : Id} (h : findUnref s c = some i) :
+    i ∈ objIds s ∨ i ∈ arrIdsLive s := by
+  unfold findUnref at h
+  split at h
+  · rename_i p hp
+    simp only [Option.some.injEq] at h
+    subst h
+    exact Or.inl (List.mem_map.mpr ⟨p, List.mem_of_find?_eq_some hp, rfl⟩)
+  · simp only [Option.map_eq_some_iff] at h
+    obtain ⟨a, ha, e⟩ := h
+    exact Or.inr (List.mem_map.mpr ⟨a, List.mem_of_find?_eq_some ha, e⟩)
+
+theorem free_measure {s : St} {i : Id} (hm : i ∈ objIds s ∨ i ∈ arrIdsLive s) :
+    (free s i).objs.length + (free s i).arrs.length < s.objs.length + s.arrs.length := by
+  have l1 : (free s i).objs.length ≤ s.objs.length := List.length_filter_le _ _
+  have l2 : (free s i).arrs.length ≤ s.arrs.length := List.length_filter_le _ _
+  rcases hm with hm | hm
+  · obtain ⟨p, hp, e⟩ := List.mem_map.mp hm
+    have : (free s i).objs.length < s.objs.length :=
+      length_filter_lt _ s.objs p hp (by simp [e])
+    omega
+  · obtain ⟨a, ha, e⟩ := List.mem_map.mp hm
+    have : (free s i).arrs.length < s.arrs.length :=
+      length_filter_lt _ s.arrs a ha (by simp [e])
+    omega
+
+theorem collect_fixpoint (c : Bool) : ∀ (fuel : Nat) (s : St),
+    s.objs.length + s.arrs.length ≤ fuel → findUnref (collect c fuel s) c = Option.none
+  | 0, s, hle => by
+    have h1 : s.objs = [] := List.eq_nil_of_length_eq_zero (by omega)
+    have h2 : s.arrs = [] := List.eq_nil_of_length_eq_zero (by omega)
+    simp [collect, findUnref, h1, h2]
+  | fuel + 1, s, hle => by
+    simp only [collect]
+    split
+    · rename_i i hi
+      have := free_measure (findUnref_mem hi)
+      exact collect_fixpoint c fuel _ (by omega)
+    · rename_i hnone; exact hnone
+
+/-- After `gc` nothing unreferenced is left: every survivor is held by a handle or by the key
+    (or the array slots) of another survivor. -/
+theorem gc_complete (s : St) : findUnref (gc s) true = Option.none :=
+  collect_fixpoint true _ s (Nat.le_refl _)
+
+/-- After `sweep` (reference counting) the only unreferenced survivors are cyclic garbage. -/
+theorem sweep_complete (s : St) : findUnref (sweep s) false = Option.none :=
+  collect_fixpoint false _ s (Nat.le_refl _)
+
+theorem exists_max_stamp : ∀ (l : List (Id × Obj)), l ≠ [] →
+    ∃ p ∈ l, ∀ q ∈ l, q.2.stamp ≤ p.2.stamp
+  | [], h => absurd rfl h
+  | [x], _ => ⟨x, List.mem_cons_self, by intro q hq; simp at hq; subst hq; exact Nat.le_refl _⟩
+  | x :: y :: ys, _ => by
+    obtain ⟨p, hp, hmax⟩ := exists_max_stamp (y :: ys) (by simp)
+    by_cases hc : p.2.stamp ≤ x.2.stamp
+    · refine ⟨x, List.mem_cons_self, ?_⟩
+      intro q hq
+      rcases List.mem_cons.mp hq with rfl | hq'
+      · exact Nat.le_refl _
+      · exact Nat.le_trans (hmax q hq') hc
+    · refine ⟨p, List.mem_cons_of_mem _ hp, ?_⟩
+      intro q hq
+      rcases List.mem_cons.mp hq with rfl | hq'
+      · omega
+      · exact hmax q hq'
+
+/-- A state with no handles and nothing unreferenced left is empty: the reference graph is
+    acyclic (keys only mention older objects), so the youngest object would be unreferenced. -/
+theorem empty_of_no_roots {s : St} (h : Inv s) (hroots : s.roots = [])
+    (hfix : findUnref s true = Option.none) : s.objs = [] ∧ s.arrs = [] ∧ s.cache = [] := by
+  have hobjs : s.objs = [] := by
+    cases hl : s.objs with
+    | nil => rfl
+    | cons x xs =>
+      exfalso
+      obtain ⟨p, hp, hmax⟩ := exists_max_stamp s.objs (by rw [hl]; simp)
+      have hunref : referenced s p.1 = false := by
+        unfold referenced
+        rw [hroots]
+        simp only [List.any_nil, Bool.false_or, List.any_eq_false, Bool.or_eq_true, decide_eq_true_eq,
+          List.any_eq_true, not_or, not_exists, not_and]
+        intro q hq
+        constructor
+        · intro hm
+          have := h.refsOlder q hq p hp hm
+          have := hmax q hq
+          omega
+        · intro a ha e
+          have ha' := h.arrsHeld q hq a ha
+          exact h.disjoint p.1 (List.mem_map.mpr ⟨p, hp, rfl⟩) (List.mem_map.mpr ⟨a, ha', e⟩)
+      unfold findUnref at hfix
+      split at hfix
+      · cases hfix
+      · rename_i hnone
+        rw [List.find?_eq_none] at hnone
+        exact hnone p hp (by simp [hunref])
+  have harrs : s.arrs = [] := by
+    cases hl : s.arrs with
+    | nil => rfl
+    | cons a as =>
+      exfalso
+      have hunref : referenced s a.1 = false := by
+        unfold referenced
+        rw [hroots, hobjs]; rfl
+      unfold findUnref at hfix
+      split at hfix
+      · cases hfix
+      · simp only [Option.map_eq_none_iff] at hfix
+        rw [List.find?_eq_none] at hfix
+        exact hfix a (by rw [hl]; exact List.mem_cons_self) (by simp [hunref])
+  exact ⟨hobjs, harrs, by rw [h.cacheEq, hobjs]; rfl⟩
+
+/-- **Weakly held**: once every handle is dropped, `gc` reclaims everything — heap and tables
+    are empty again, whatever history came before. -/
+theorem weak_reclaim {s : St} (h : Inv s) (hroots : s.roots = []) :
+    (gc s).objs = [] ∧ (gc s).arrs = [] ∧ (gc s).cache = [] := by
+  apply empty_of_no_roots (collect_inv _ _ _ h)
+  · show (collect true _ s).roots = []
+    rw [collect_roots]; exact hroots
+  · exact gc_complete s
+
+/-! ### reinterpret under reflect -/
+
+theorem mapArgsM_self (f : St → Id → Except Err (St × Id)) (s : St)
+    (hf : ∀ j s' j', f s j = .ok (s', j') → s' = s ∧ j' = j) :
+    ∀ (ts : List ArgTok) (s' : St) (ts' : List ArgTok),
+      mapArgsM f [] s ts = .ok (s', ts') → s' = s ∧ ts' = ts
+  | [], s', ts', hm => by
+    simp only [mapArgsM, Except.ok.injEq, Prod.mk.injEq] at hm
+    exact ⟨hm.1.symm, hm.2.symm⟩
+  | t :: ts, s', ts', hm => by
+    cases t with
+    | obj j =>
+      simp only [mapArgsM] at hm
+      split at hm
+      · cases hm
+      · rename_i s1 j' hfj
+        obtain ⟨rfl, rfl⟩ := hf _ _ _ hfj
+        split at hm
+        · cases hm
+        · rename_i s2 ts2 hrec
+          obtain ⟨rfl, rfl⟩ := mapArgsM_self f _ hf ts _ _ hrec
+          simp only [Except.ok.injEq, Prod.mk.injEq] at hm
+          exact ⟨hm.1.symm, hm.2.symm⟩
+    | arr a =>
+      simp only [mapArgsM] at hm
+      split at hm
+      · cases hm
+      · rename_i s2 ts2 hrec
+        obtain ⟨rfl, rfl⟩ := mapArgsM_self f _ hf ts _ _ hrec
+        simp only [remapId, Except.ok.injEq, Prod.mk.injEq] at hm
+        exact ⟨hm.1.symm, hm.2.symm⟩
+    | _ =>
+      simp only [mapArgsM] at hm
+      split at hm
+      · cases hm
+      · rename_i s2 ts2 hrec
+        obtain ⟨rfl, rfl⟩ := mapArgsM_self f _ hf ts _ _ hrec
+        simp only [Except.ok.injEq, Prod.mk.injEq] at hm
+        exact ⟨hm.1.symm, hm.2.symm⟩
+
+/-- **Reinterpretation under reflect is the identity**: rebuilding a live object bottom-up from
+    its own arguments (same arrays) returns the object itself and leaves heap and tables
+    untouched — whenever it returns (`rebuild` needs fuel ≥ the term's depth). -/
+theorem rebuild_self : ∀ (fuel : Nat) (s : St) (i : Id) (s' : St) (j : Id),
+    Inv s → rebuild fuel [] s i = .ok (s', j) → s' = s ∧ j = i
+  | 0, _, _, _, _, _, hr => by simp [rebuild] at hr
+  | fuel + 1, s, i, s', j, h, hr => by
+    simp only [rebuild] at hr
+    split at hr
+    · cases hr
+    · rename_i o ho
+      split at hr
+      · cases hr
+      · rename_i s1 args' hm
+        obtain ⟨rfl, rfl⟩ := mapArgsM_self (rebuild fuel []) s
+          (fun j s' j' hh => rebuild_self fuel s j s' j' h hh) _ _ _ hm
+        have hmem := findObj_mem ho
+        simp only [remapId] at hr
+        obtain ⟨key, held, hk, _, _, hcase⟩ := construct_cases hr
+        have hkey : key = o.key := by
+          have := h.keyOfArgs (i, o) hmem
+          simp only at this
+          rw [this] at hk
+          exact (Option.some.inj hk).symm
+        have hself := lookup_self h hmem
+        rw [hkey] at hcase
+        rcases hcase with ⟨hhit, rfl⟩ | ⟨hmiss, _⟩
+        · rw [hself] at hhit
+          exact ⟨rfl, (Option.some.inj hhit).symm⟩
+        · rw [hself] at hmiss; cases hmiss
+
+/-! ## The hypotheses are satisfiable; the model says what the design notes observed -/
+
+/-- A reachable, non-trivial state: an array, a tensor on it, a variable, a binary term. -/
+def demoOps : List Step :=
+  [.alloc 0 50, .mk 1 8 false [.arr 50, .lp, .rp, .str "real"] 51,
+   .mk 2 26 false [.str "x", .obj 51] 52,
+   .mk 3 11 false [.obj 52, .obj 51] 53]
+
+example : ∃ s, run St.init demoOps = .ok s ∧ s.objs.length = 3 ∧ Inv s := by
+  refine ⟨_, rfl, rfl, inv_reachable demoOps _ rfl⟩
+
+/-- Pickle round trip of a tensor: the array is copied (new address 60), so the rebuilt tensor is
+    a *different* object (address 61 ≠ 51); reinterpretation (same array) is the same object. -/
+example : ∃ s, run St.init (demoOps ++ [.alloc 9 60, .rebuild 1 4 [(50, 60), (51, 61)]]) = .ok s ∧
+    getRoot s.roots 4 = some 61 ∧ getRoot s.roots 1 = some 51 := ⟨_, rfl, rfl, rfl⟩
+
+example : ∃ s, run St.init (demoOps ++ [.rebuild 3 4 []]) = .ok s ∧
+    getRoot s.roots 4 = some 53 := ⟨_, rfl, rfl⟩
+
+/-- Recycling: drop the tensor and its array, let the allocator hand address 50 out again — the
+    request on the new array builds a new tensor (the old entry is gone), it does not find a
+    stale one. -/
+example : ∃ s, run St.init [.alloc 0 50, .mk 1 8 false [.arr 50, .lp, .rp, .str "real"] 51,
+      .drop 1, .drop 0, .sweep, .alloc 0 50, .mk 1 8 false [.arr 50, .lp, .rp, .str "real"] 51] = .ok s ∧
+    (s.objs.map (·.2.stamp) = [3]) ∧ s.cache.length = 1 := ⟨_, rfl, rfl, rfl⟩
+
+/-- `Number(1)`, `Number(1.0)`, `Number(True)` (dtype defaulted) are one object;
+    `Number(-0.0)` is `Number(0.0)`. -/
+example :
+    (splitTop [.int 1] >>= normArgs "NumberMeta").map List.flatten >>= mkKey =
+    ((splitTop [.flt 1 1, .none] >>= normArgs "NumberMeta").map List.flatten >>= mkKey) ∧
+    (splitTop [.bool true] >>= normArgs "NumberMeta").map List.flatten >>= mkKey =
+    ((splitTop [.int 1, .str "real"] >>= normArgs "NumberMeta").map List.flatten >>= mkKey) ∧
+    (splitTop [.negz] >>= normArgs "NumberMeta").map List.flatten >>= mkKey =
+    ((splitTop [.flt 0 1] >>= normArgs "NumberMeta").map List.flatten >>= mkKey) := by
+  decide
 
 end FV.Props.C07
